@@ -41,16 +41,33 @@ def parseSeed (j : Json) : Except String Nat := do
   | .ok v => pure (normInt (← int v))
   | .error _ => pure (normBytes (← natList (← field j "bytes")))
 
-/-- request: {"seeds":[seed…], "hist":[{"i":inst, "op":…}…]} → outputs of `run` and, per
-instance, of `runOne` on its own calls (the spec side of the frame property). -/
+def parseCall (j : Json) : Except String Call := do
+  let name ← str (← field j "op")
+  match name with
+  | "reseed" => pure (.reseed (← parseSeed (← field j "seed")))
+  | "pickle" => pure .repickle
+  | "gaussiter" => pure (.op .gauss)   -- placeholder, expanded by `expand`
+  | _ => pure (.op (← parseOp j))
+
+/-- `{"op":"gaussiter","n":k}` is k single `gauss()` calls (compared with one `gausses(k)` by the harness) -/
+def expand (i : Nat) (j : Json) : Except String (List (Nat × Call)) := do
+  let name ← str (← field j "op")
+  if name == "gaussiter" then
+    pure (List.replicate (← nat (← field j "n")) (i, Call.op Op.gauss))
+  else
+    pure [(i, ← parseCall j)]
+
+/-- request: {"seeds":[seed…], "hist":[{"i":inst, "op":…}…]} → outputs of `crun` (method calls, module
+re-seeding, pickling) and, per instance, of `crunOne` on its own calls (the spec side of the frame
+property). -/
 def handle (req : Json) : Except String Json := do
   let seeds ← (← arr (← field req "seeds")).mapM parseSeed
-  let hist ← (← arr (← field req "hist")).mapM (fun j => do
-    let i ← nat (← field j "i"); let op ← parseOp j; pure (i, op))
-  let st : Nat → Gen := fun i => { s := seeds.getD i 0 }
-  let outs := run st hist
+  let hist := (← (← arr (← field req "hist")).mapM (fun j => do
+    let i ← nat (← field j "i"); expand i j)).flatten
+  let st : Nat → Inst := fun i => fresh (seeds.getD i 0)
+  let outs := crun st hist
   let alone := (List.range seeds.length).map (fun i =>
-    runOne (st i) ((hist.filter (·.1 = i)).map (·.2)))
+    crunOne (st i) ((hist.filter (·.1 = i)).map (·.2)))
   pure (obj [("model", ofList (fun (p : Nat × Out) => Json.arr #[ofNat p.1, outToJson p.2]) outs),
              ("alone", ofList (ofList outToJson) alone),
              ("states", ofList ofNat seeds)])
